@@ -188,7 +188,7 @@ func (s *SoftwrapScanner) Scan(ctx vxfw.DrawContext) bool {
 	// Clear token
 	s.token = []byte{}
 
-	var w uint16
+	var w int
 	for {
 		seg, rest, br, state := uniseg.FirstLineSegment(s.rest, s.state)
 
@@ -198,30 +198,30 @@ func (s *SoftwrapScanner) Scan(ctx vxfw.DrawContext) bool {
 		trSpace := seg[len(word):]
 
 		wordChars := ctx.Characters(string(word))
-		var wordLen uint16
+		var wordLen int
 		for _, char := range wordChars {
-			wordLen += uint16(char.Width)
+			wordLen += char.Width
 		}
 
 		spaceChars := ctx.Characters(string(trSpace))
-		var spaceLen uint16
+		var spaceLen int
 		for _, char := range spaceChars {
-			spaceLen += uint16(char.Width)
+			spaceLen += char.Width
 		}
 
 		// This word is longer than the line. We have to break on
 		// graphemes
-		if wordLen > s.width {
+		if wordLen > int(s.width) {
 			s.rest = []byte{}
 			// Append characters to token until we reach the end
 			for _, char := range wordChars {
-				if w >= s.width {
+				if w >= int(s.width) {
 					// Append the rest to rest
 					s.rest = append(s.rest, []byte(char.Grapheme)...)
 					continue
 				}
 				s.token = append(s.token, []byte(char.Grapheme)...)
-				w += uint16(char.Width)
+				w += char.Width
 			}
 			// Append the trailing space
 			s.rest = append(s.rest, trSpace...)
@@ -231,7 +231,7 @@ func (s *SoftwrapScanner) Scan(ctx vxfw.DrawContext) bool {
 		}
 
 		// Check if this segment fits. If it doesn't we are done
-		if w+wordLen > s.width {
+		if w+wordLen > int(s.width) {
 			return true
 		}
 
@@ -256,7 +256,7 @@ func (s *SoftwrapScanner) Scan(ctx vxfw.DrawContext) bool {
 		w += wordLen
 
 		// If the space doesn't fit, we return now
-		if w+spaceLen > s.width {
+		if w+spaceLen > int(s.width) {
 			return true
 		}
 
